@@ -327,7 +327,7 @@ func checkInterop(c *vm.Ctx, r *vm.Rand) {
 }
 
 // rejection: headers whose declared sizes are forbidden must not be accepted.
-func checkRejection(c *vm.Ctx, r *vm.Rand) {
+func checkRejection(c *vm.Ctx, r *vm.Rand, withBig bool) {
 	type rej struct {
 		name      string
 		threshold int
@@ -371,6 +371,17 @@ func checkRejection(c *vm.Ctx, r *vm.Rand) {
 			z := zbody(int(dl)) // a genuine zlib stream of exactly dl bytes, but below the receiver's threshold
 			cases = append(cases, rej{"zlib.nonzero-below-threshold", th, refwire.RawFrame(int32(len(vi(dl))+len(z)), vi(dl), z)})
 		}
+	}
+	// complete frames (every declared byte present) whose id+payload exceeds the protocol maximum of 2 MiB: without a
+	// compression layer, and as the "data length 0" (not compressed) form under a compression layer
+	for _, over := range []int{1, 100, 1 << 20} {
+		if !withBig {
+			break // 2..3 MiB per frame: on every 64th call only
+		}
+		big := make([]byte, 1<<21-len(id)+over)
+		cases = append(cases, rej{"plain.complete-frame-above-maximum", -1, refwire.RawFrame(int32(len(id)+len(big)), id, big)})
+		inner := append(append([]byte{0}, id...), big...) // data length 0, then the plain packet
+		cases = append(cases, rej{"zlib.uncompressed-form-above-maximum", th, refwire.RawFrame(int32(len(inner)), nil, inner)})
 	}
 	for _, rc := range cases {
 		in := append(append([]byte{}, rc.frame...), r.Bytes(64)...)
@@ -437,7 +448,7 @@ func run(c *vm.Ctx) {
 	}
 	rr := c.Rand("reject")
 	for i := 0; i < c.Scale(3000, 60000); i++ {
-		checkRejection(c, rr)
+		checkRejection(c, rr, i%64 == 0)
 		if i%500 == 499 {
 			runtime.GC()
 		}
